@@ -49,7 +49,7 @@ def cdec(d):
 def cres(r, f):
     return '(RStr %s)' % cstrz(r) if isinstance(r, str) else '(RVal %s)' % f(r)
 
-HEADER = ('Require Import PonyV.Base.PyBase PonyV.Model.C07Base PonyV.Model.C07Fmt PonyV.Gen.C07Codec PonyV.Model.C07Codec PonyV.Model.C07Corr.\n'
+HEADER = ('From Coq Require Import PrimFloat Uint63.\nRequire Import PonyV.Base.PyBase PonyV.Model.C07Base PonyV.Model.C07Fmt PonyV.Gen.C07Codec PonyV.Model.C07Codec PonyV.Model.C07Corr PonyV.Model.C07Float.\n'
           'Open Scope Z_scope.\n')
 
 
@@ -236,6 +236,36 @@ def correspondence(ctx):
             if conv[name].sql2py(conv[name].py2sql(v)) != v:
                 disagreements.append({'what': '%s converter: sql2py(py2sql(v)) != v' % name, 'input': repr(v)})
             dist['identity_converters'] = dist.get('identity_converters', 0) + 1
+
+    # 15: SQLite float storage of timedelta, bit for bit (PrimFloat model); 16: Oracle/MySQL interval storage of time, Oracle bool
+    ci = lambda n: '%d%%uint63' % n
+    fgrid = [t for t in tds if abs(t.days) < 50000000] + [dt.timedelta(days=77680, seconds=35904, microseconds=138270), dt.timedelta(days=-3, seconds=5, microseconds=7),
+                                                           dt.timedelta(days=52125, microseconds=1), dt.timedelta(days=20000, seconds=86399, microseconds=999999)]
+    for t in fgrid:
+        x = conv['td'].py2sql(t)
+        fm, fe = math.frexp(abs(x))
+        mant, ex = (0, 0) if x == 0 else (int(fm * 2 ** 53), fe + 2101)
+        back = conv['td'].sql2py(x)
+        tot = back // dt.timedelta(microseconds=1)
+        add('timedelta_float', 'chk_td_float %s %s %s %s %s %s %s %s %s' % (cbool(t.days < 0), ci(abs(t.days)), ci(t.seconds), ci(t.microseconds), cbool(x < 0), ci(mant), ci(ex),
+                                                                            cbool(tot < 0), ci(abs(tot))), str(t), [x.hex(), str(back)])
+        nontrivial.add(('tdfloat', t.days, t.seconds, t.microseconds))
+    vlib.stub_modules()
+    from pony.orm.dbproviders import oracle as ora, mysql as my
+    for t in TIMES:
+        t = dt.time(*t)
+        td_ = ora.OraTimeConverter.py2sql(None, t)
+        r1, r2 = ora.OraTimeConverter.sql2py(None, td_), my.MySQLTimeConverter.sql2py(None, td_)
+        if r1 != t or r2 != t: disagreements.append({'what': 'Oracle/MySQL time converter does not give the time back', 'input': str(t), 'impl': [str(r1), str(r2)]})
+        add('interval_time', 'chk_ora_time %s %s' % (ctime(t), ctd(td_)), str(t), str(td_))
+    for td_ in [dt.timedelta(0), dt.timedelta(seconds=86399, microseconds=999999), dt.timedelta(days=1), dt.timedelta(days=1, seconds=1), dt.timedelta(microseconds=-1), dt.timedelta(hours=13, minutes=7)]:
+        try: r = my.MySQLTimeConverter.sql2py(None, td_)
+        except Exception: r = None
+        add('interval_time', 'chk_interval_time %s %s' % (ctd(td_), copt(r if isinstance(r, dt.time) else None, ctime)), str(td_), str(r))
+    for b in (True, False):
+        z = ora.OraBoolConverter.py2sql(None, b)
+        add('ora_bool', 'chk_ora_bool %s %s' % (cbool(b), cz(z)), b, z)
+        if ora.OraBoolConverter.sql2py(None, z) is not b: disagreements.append({'what': 'OraBoolConverter round trip', 'input': b})
 
     # 14: JsonConverter.validate / ArrayConverter.validate on plain values and on values tracked by this / another object / another attribute
     def ctv(w):
